@@ -12,7 +12,9 @@ def run(tier):
     # the option-sensitive lines (SMART spelling rule, stack-pointer index, no-base scale) and lines that set per-line option bits
     # (short / decimal immediates) are always members: state leaking from one line into the next of the same call shows on them
     PROBES = ["mov rax, 0x000000007fffffff", "mov rcx, 0x7fffffff", "mov rdx, 2147483647", "mov r9, 0x0000000000000001", "lea r15, [rax+rsp]", "lea r14, [2*rax]",
-              "add rcx, 5", "shl rdx, 3", "mov rcx, 0x10", "mov qword [rbx+rsp], 5", "vpaddb ymm1, ymm2, [4*r12+8]"]
+              "add rcx, 5", "shl rdx, 3", "mov rcx, 0x10", "mov qword [rbx+rsp], 5", "vpaddb ymm1, ymm2, [4*r12+8]",
+              # branches of each kind (their displacement is the operand, wherever they stand and however many there are in a call)
+              "jmp 0x10", "jne long -0x80", "call 0x12345", "jrcxz 5", "jmp short -3"]
     lines = sorted(set(c["text"] for c in rep) | set(PROBES))
     masks = ["211", "000", "111"]
     alone = {m: corpus.accepted_alone(binary, lines + corpus.SKIP_LINES, m) for m in masks}
@@ -199,7 +201,7 @@ def run(tier):
         fam_first.setdefault(l.split()[0], l)
     pick = sorted(fam_first.values())
     pick = [l for l in pick if alone["211"][l]]
-    reps = PROBES[:6] + rnd.sample(pick, min(len(pick), 14 if not full else 60))
+    reps = PROBES[:6] + [l for l in PROBES[-5:] if l in R] + rnd.sample(pick, min(len(pick), 14 if not full else 60))
     rcases, rmeta = [], []
     for i, l in enumerate(reps):
         for N in ((300, 66000) if (full or i % 4 == 0) else (300,)):
